@@ -303,6 +303,8 @@ def oracle_answer(name, arg):
             return None
     if name == "nfkc":
         return unicodedata.normalize("NFKC", arg)
+    if name == "lower":
+        return arg.lower()
     raise KeyError(name)
 
 
@@ -599,7 +601,7 @@ def shorten(v, n=200):
 
 
 def check_suite(ctx, name, reqs, pred=None, kf=None, exhaustive=False, nontrivial=None,
-                classes=None, kinds=None, compare=True):
+                classes=None, kinds=None, compare=True, split=False):
     """reqs: list of (fn, args).  Runs model and implementation(s), records every
     correspondence difference in ctx.diffs, evaluates the extracted theorem predicate
     [pred] (a model-driver function taking the request arguments followed by the
@@ -609,16 +611,29 @@ def check_suite(ctx, name, reqs, pred=None, kf=None, exhaustive=False, nontrivia
     if not reqs:
         return {}
     lines = [call_line(fn, *args) for fn, args in reqs]
-    outs = run_all(ctx, lines, kinds or ("model", "py", "c"))
+    kinds = kinds or ("model", "py", "c")
+    outs = run_all(ctx, lines, [k for k in kinds if k != "model"])
     impl_kinds = [k for k in outs if k != "model"]
-    model = outs.get("model")
+    model_for = {}
+    if "model" in kinds:
+        if split:
+            # the model of a backend-dependent entry point is selected by an @py / @c suffix
+            for k in impl_kinds:
+                ml = [call_line(fn + "@" + k, *args) for fn, args in reqs]
+                model_for[k] = run_sharded("model", ctx.overlay, ml)
+        else:
+            m = run_sharded("model", ctx.overlay, lines)
+            for k in impl_kinds:
+                model_for[k] = m
+    model = model_for.get(impl_kinds[0]) if impl_kinds else None
+    outs["model"] = model
     if not hasattr(ctx, "diffs"):
         ctx.diffs = []
     ndiff = 0
-    if compare and model is not None:
+    if compare and model_for:
         for k in impl_kinds:
             o = outs[k]
-            for i, (a, b) in enumerate(zip(model, o)):
+            for i, (a, b) in enumerate(zip(model_for[k], o)):
                 if a != b:
                     ndiff += 1
                     if len(ctx.diffs) < 50:
@@ -653,7 +668,7 @@ def check_suite(ctx, name, reqs, pred=None, kf=None, exhaustive=False, nontrivia
                     ctx.violation(kind="predicate-failure", suite=name, backend=k, predicate=pred,
                                   request=lines[i], request_repr=shorten(reqs[i]),
                                   impl=o[i], impl_repr=shorten(safe_dec(o[i])),
-                                  model=model[i] if model else None,
+                                  model=model_for[k][i] if k in model_for else None,
                                   predicate_reply=pres[i])
     keys = nontrivial(reqs) if nontrivial else set(lines)
     ctx.count(name, len(reqs) * max(1, len(impl_kinds)), keys,
